@@ -916,13 +916,19 @@ class Interp(object):
                 ast.copy_location(n_, st)
             ast.fix_missing_locations(outer)
             return self.st_If(outer, s, ctx)
-        if isinstance(st.test, ast.Compare) and len(st.test.ops) == 1 and isinstance(st.test.ops[0], (ast.In, ast.NotIn)) and \
-                isinstance(st.test.comparators[0], (ast.Tuple, ast.List, ast.Set)) and 2 <= len(st.test.comparators[0].elts) <= 4 and \
-                all(isinstance(e_, ast.Constant) and isinstance(e_.value, (int, str)) for e_ in st.test.comparators[0].elts) and \
+        seq_ = None
+        if isinstance(st.test, ast.Compare) and len(st.test.ops) == 1 and isinstance(st.test.ops[0], (ast.In, ast.NotIn)):
+            seq_ = st.test.comparators[0]
+            if isinstance(seq_, ast.Name) and seq_.id not in s.env:
+                # a module-level tuple of alternatives (`_COMPLEX_DTYPES = (numpy.complex64, numpy.complex128)`)
+                b_ = self.ix.namespace(ctx.finfo.module.name).get(seq_.id)
+                seq_ = b_.target if (b_ is not None and b_.kind == "value" and isinstance(b_.target, (ast.Tuple, ast.List))) else None
+        if seq_ is not None and isinstance(seq_, (ast.Tuple, ast.List, ast.Set)) and 2 <= len(seq_.elts) <= 4 and \
+                all((isinstance(e_, ast.Constant) and isinstance(e_.value, (int, str))) or isinstance(e_, (ast.Name, ast.Attribute)) for e_ in seq_.elts) and \
                 not (forced and norm_text(st.test) in forced):
-            # `x in (a, b)` over literal constants is `x == a or x == b`: one atomic decision per alternative
+            # `x in (a, b)` over a short literal sequence is `x == a or x == b`: one atomic decision per alternative
             alts = ast.BoolOp(op=ast.Or(), values=[ast.Compare(left=st.test.left, ops=[ast.Eq()], comparators=[e_])
-                                                   for e_ in st.test.comparators[0].elts])
+                                                   for e_ in seq_.elts])
             pos = isinstance(st.test.ops[0], ast.In)
             node = ast.If(test=alts, body=st.body if pos else (st.orelse or [ast.Pass()]), orelse=st.orelse if pos else st.body)
             ast.copy_location(node, st)
@@ -1470,10 +1476,21 @@ class Interp(object):
     def elem(self, seq, idx):
         if isinstance(seq, tuple) and len(seq) == 2 and seq[0] == "zip" and isinstance(seq[1], tuple):
             return tuple(self.elem(x, idx) for x in seq[1])         # item k of zip(a, b, ...) is (a[k], b[k], ...)
+        if isinstance(seq, RangeVal) and isinstance(idx, Rat):
+            return seq.lo + idx * seq.step          # item k of range(lo, hi, step)
         if isinstance(seq, Rat):
             pushed = _item_of_leading_broadcast(seq, idx)
             if pushed is not None:
                 return pushed
+            a_ = seq.single_atom()
+            if isinstance(a_, Fn) and a_.name == "getitem" and isinstance(a_.args[0], Rat) and isinstance(idx, Rat) and \
+                    static_shape(a_.args[0]) is not None:
+                # item j of the item x[i] of an array of known rank is x[i, j] (iteration over the rows, then over their elements)
+                prev = a_.args[1] if isinstance(a_.args[1], tuple) and not _is_slice(a_.args[1]) else (a_.args[1],)
+                is_int_ = lambda q: isinstance(q, Rat) and (q.is_const() or all(isinstance(t, Sym) and ("loopvar" in t.flags or "int" in t.flags)
+                                                                                  for t in q.atoms()))
+                if all(is_int_(q) for q in prev) and is_int_(idx):
+                    return Rat.atom(Fn("getitem", (a_.args[0], tuple(prev) + (idx,))))
             return Rat.atom(Fn("getitem", (seq, idx)))
         if isinstance(seq, (list, tuple)):
             return unk("elem", tuple(seq) if len(seq) < 6 else len(seq), idx)
@@ -2479,6 +2496,9 @@ def _itkey(it):
     return _vk(it)
 
 
+_GRID_OTHER = {}          # key of a grid(v, axis) atom -> constant length of the other axis (-1 if seen with several)
+
+
 def _bcast(a, b):
     """broadcast of two partially known shapes (tuples of int | None): an axis of known length > 1 decides (in a program
     that does not raise)"""
@@ -2538,7 +2558,9 @@ def _atom_shape(a):
         if vs is None or len(vs) > 1:
             return None
         n = vs[0] if vs else 1
-        return (n, None) if a.args[1] == 0 else (None, n)
+        o_ = _GRID_OTHER.get(a.key())
+        o_ = o_ if (o_ is not None and o_ >= 0) else None
+        return (n, o_) if a.args[1] == 0 else (o_, n)
     if a.name == "reshape" and len(a.args) >= 2:
         shp = a.args[1] if len(a.args) == 2 and isinstance(a.args[1], tuple) else tuple(a.args[1:])
         out = tuple(_const_len(x) for x in shp)
@@ -2553,6 +2575,13 @@ def _atom_shape(a):
         return (n,)
     if a.name == "setitem" and len(a.args) == 3:
         return static_shape(a.args[0])
+    if a.name == "getitem" and len(a.args) == 2 and isinstance(a.args[0], Rat):
+        bs = static_shape(a.args[0])
+        ix_ = a.args[1] if isinstance(a.args[1], tuple) and not _is_slice(a.args[1]) else (a.args[1],)
+        if bs is not None and all(isinstance(q, Rat) and all(isinstance(t, Sym) and ("loopvar" in t.flags or "int" in t.flags) for t in q.atoms())
+                                  for q in ix_) and len(ix_) <= len(bs):
+            return bs[len(ix_):]            # integer indices on the leading axes select an item
+        return None
     if a.name in ("sort", "cumsum", "clip", "astype", "copy") and a.args and isinstance(a.args[0], Rat) and \
             not any(isinstance(x, tuple) and x and x[0] == "kw:axis" and x[1] is None for x in a.args[1:]):
         return static_shape(a.args[0])
@@ -3213,11 +3242,17 @@ def _linspace(I, a, k, e, env, ctx):
 def _meshgrid(I, a, k, e, env, ctx):
     ind = k.get("indexing", "xy")
     if len(a) == 2 and all(isinstance(x, Rat) for x in a) and set(k) <= {"indexing"} and ind in ("xy", "ij"):
-        if ind == "ij":
-            # matrix indexing: X[i, j] = a0[i] ; Y[i, j] = a1[j]
-            return (mk_grid(a[0], 0), mk_grid(a[1], 1))
-        # X[i, j] = a0[j]  (varies along axis 1) ; Y[i, j] = a1[i] (varies along axis 0)
-        return (mk_grid(a[0], 1), mk_grid(a[1], 0))
+        out_ = (mk_grid(a[0], 0), mk_grid(a[1], 1)) if ind == "ij" else (mk_grid(a[0], 1), mk_grid(a[1], 0))
+        # the replicated-vector form grid(v, axis) does not say how often v is replicated; remember it for the vectors of this
+        # call when both lengths are constants (used to name iteration domains only, see static_shape)
+        l0_, l1_ = leading_length(a[0]), leading_length(a[1])
+        if l0_ is not None and l1_ is not None:
+            for g_, other_ in ((out_[0], l1_), (out_[1], l0_)):
+                for at_ in (g_.atoms(False) if isinstance(g_, Rat) else ()):
+                    if isinstance(at_, Fn) and at_.name == "grid":
+                        prev_ = _GRID_OTHER.get(at_.key())
+                        _GRID_OTHER[at_.key()] = other_ if prev_ in (None, other_) else -1          # -1: ambiguous
+        return out_
     return NotImplemented
 
 
@@ -3552,16 +3587,20 @@ def _identity(I, a, k, e, env, ctx):
 @ext("numpy.where")
 def _where(I, a, k, e, env, ctx):
     if len(a) == 3:
+        c_ = a[0].single_atom() if isinstance(a[0], Rat) else None
+        if isinstance(c_, Fn) and c_.name == "cmp" and c_.args[0] == "!=":
+            # where(x != y, A, B) is where(x == y, B, A): one spelling of the selection
+            return Rat.atom(Fn("where3", (mk_cmp("==", c_.args[1], c_.args[2]), a[2], a[1])))
         return Rat.atom(Fn("where3", tuple(a)))
     if len(a) == 1:
         return Rat.atom(Fn("where1", tuple(a)))
     return NotImplemented
 
 
-@ext("numpy.less_equal", "numpy.less", "numpy.greater", "numpy.greater_equal", "numpy.equal")
+@ext("numpy.less_equal", "numpy.less", "numpy.greater", "numpy.greater_equal", "numpy.equal", "numpy.not_equal")
 def _cmpfn(I, a, k, e, env, ctx):
     nm = norm_text(e.func).split(".")[-1]
-    op = {"less_equal": "<=", "less": "<", "greater": ">", "greater_equal": ">=", "equal": "=="}[nm]
+    op = {"less_equal": "<=", "less": "<", "greater": ">", "greater_equal": ">=", "equal": "==", "not_equal": "!="}[nm]
     if len(a) == 2:
         return mk_cmp(op, a[0], a[1])
     return NotImplemented
@@ -3639,6 +3678,13 @@ def _named(I, a, k, e, env, ctx):
 
 def _fft_fn(name):
     def h(I, a, k, e, env, ctx):
+        if not a:
+            # the array by keyword (numpy names it `a`, the shift functions `x`); defaults spelled out are the defaults
+            key_ = "x" if name.endswith("shift") else "a"
+            if isinstance(k.get(key_), Rat):
+                a = [k[key_]]
+                k = {kk: v for kk, v in k.items() if kk != key_}
+        k = {kk: v for kk, v in k.items() if not (kk in ("n", "s", "norm", "out") and v is None)}
         if a and isinstance(a[0], Rat):
             x = a[0]
             kw = dict(k)
@@ -3771,6 +3817,8 @@ def _next_fast_len(I, a, k, e, env, ctx):
      "numpy.isrealobj", "numpy.result_type")
 def _named2(I, a, k, e, env, ctx):
     nm = norm_text(e.func).split(".")[-1]
+    if nm in ("tril", "triu") and len(a) == 1 and set(k) == {"k"}:
+        a, k = list(a) + [k["k"]], {}          # the diagonal offset by keyword is the second positional argument
     return Rat.atom(Fn(nm, tuple(_vk2(x) for x in a) + tuple(("kw:" + kk, _vk2(v)) for kk, v in sorted(k.items()))))
 
 
